@@ -131,6 +131,14 @@ Definition mon_safe (ins : list N) : bool :=
 
 Definition queue_monitor (k : N) (ins : list N) : list N :=
   if k =? 160 then [b2n (mon_safe ins)] else
+  (* kind 161 (C03): [pending at the cursor; the used element names the token; the submission is the token's; consumed]:
+     a published completion for the presented token is consumed *)
+  if k =? 161 then match ins with [pend; names; own; ok] => [b2n (implb ((pend =? 1) && (names =? 1) && (own =? 1)) (ok =? 1))] | _ => [77777] end else
+  (* kind 162 (C03): [pending; id at the cursor; can_pop; peek is Some; peeked token]: what the device has published is
+     visible: can_pop iff pending, peek_used = Some (id mod 2^16) iff pending *)
+  if k =? 162 then match ins with
+                   | [pend; uid; cp; pk; tok] => [b2n ((cp =? pend) && (pk =? pend) && implb (pend =? 1) (tok =? uid mod 65536))]
+                   | _ => [77777] end else
   (* kind 159 (C03): after a refused poll [private state unchanged; number of effects] *)
   if k =? 159 then match ins with [same; nev] => [b2n ((same =? 1) && (nev =? 0))] | _ => [77777] end else
   (* kind 158 (C02): [instants checked; instants at which an entry below the visible index was incomplete] *)
